@@ -2,13 +2,9 @@
 
 import ast
 
-from ..absint import EMPTY, NONE, NONEMPTY, NOTNONE, State
-from ..astutil import FUNC_TYPES, attr_chain, dotted, norm, walk_shallow
-from ..cfg import handler_is_catch_all, handler_names, live_nodes, node_calls
-from ..loader import AnalysisError
-from . import runmodel
-from .common import RUNTEST, TESTCASE, TWRUNTEST, cfg_of, nodes_calling, own_method
-from .runmodel import RERAISE, SENT, USER_EXC
+from ..absint import TRUE
+from . import casemodel as cm
+from .common import RUNTEST, TESTCASE
 
 EXPLANATION = (
     "Typestate analysis of testtools.runtest.RunTest by abstract interpretation (ttsa.absint): the "
@@ -29,8 +25,33 @@ EXPLANATION = (
 )
 
 
-def rpr_node(ctx):
-    return own_method(ctx, RUNTEST, "RunTest", "_run_prepared_result")
+def _combos():
+    """(setUp, test, tearDown, cleanup) outcomes: None = returns, else a kind of exception ('-' = the stage does not run)."""
+    out = []
+    for su in (None, "fail", "interrupt"):
+        if su is not None:
+            for cl in (None, "error"):
+                out.append((su, "-", "-", cl))
+            continue
+        for te in (None, "fail", "error", "skip", "interrupt"):
+            for td in (None, "error", "interrupt"):
+                for cl in (None, "fail"):
+                    out.append((su, te, td, cl))
+    return out
+
+
+def _script(su, te, td, cl, extra_test=()):
+    script = {"setUp": [("call", "addCleanup", [cm.user("cleanup")], [])], "test": list(extra_test), "tearDown": [], "cleanup": []}
+    for name, kind in (("setUp", su), ("test", te), ("tearDown", td), ("cleanup", cl)):
+        if kind not in (None, "-"):
+            script[name].append(("raise", cm.raised(kind, name)))
+    return script
+
+
+def _label(su, te, td, cl):
+    def w(k):
+        return "ok" if k is None else k
+    return f"setUp {w(su)}, test {w(te)}, tearDown {w(td)}, cleanup {w(cl)}"
 
 
 def run(ctx):
@@ -40,241 +61,148 @@ def run(ctx):
     ctx.rule("R-CATCH-ALL", "user code runs under a BaseException handler that records the exception")
     ctx.rule("R-RERAISE", "unhandled exception kinds go to last_resort and are re-raised inside the bracket")
     ctx.rule("R-RUN-BRACKET", "run() pairs startTestRun/stopTestRun for a result it created; results are adapted; TestCase.run resets first")
-    classes = ctx.classes
-    rt = classes.get(RUNTEST, "RunTest")
-    Q = f"{RUNTEST}:RunTest"
-
-    # ------------------------------------------------------------------ typestate over the whole run
-    res, interp = runmodel.analyse_run(ctx, rt)
-    groups = {}
-    for r in res:
-        d = r.state.as_dict()
-        key = (r.kind, r.value if r.kind == "exc" else "return", d.get("ev.started", 0), d.get("ev.stopped", 0), d.get("ev.outcomes", 0),
-               d.get("ev.phantom", 0), d.get("ev.outcome_outside_bracket", 0), d.get("ev.stop_before_start", 0))
-        groups.setdefault(key, r)
-    n_exit = 0
-    for key, r in sorted(groups.items(), key=lambda kv: repr(kv[0])):
-        kind, value, started, stopped, outcomes, phantom, outside, sbs = key
-        n_exit += 1
-        framework = kind == "exc" and isinstance(value, tuple) and value and value[0] == "framework"
-        label = f"exit {'return' if kind == 'val' else 'raise ' + repr(value)[:40]} [started={started} stopped={stopped} outcomes={outcomes}{' unrecorded-sentinel' if phantom else ''}]"
-        # bracket
-        ok_b = (stopped == started) and stopped <= 1 and not outside and not sbs
-        ctx.check("R-BRACKET", label, own_method(ctx, RUNTEST, "RunTest", "_run_prepared_result"), ok_b,
-                  f"abstract exit with startTest x{started}, stopTest x{stopped}{', outcome outside the bracket' if outside else ''}",
-                  examined=1, path=runmodel.fmt_log(r.state),
-                  construct=f"{Q}._run_prepared_result::bracket started={started} stopped={stopped} outside={outside}")
-        if kind == "exc" and value == USER_EXC:
-            ctx.check("R-CATCH-ALL", label, rt.node, False, "an exception raised by user code escapes the runner without being recorded",
-                      path=runmodel.fmt_log(r.state), construct=f"{Q}::user-exception-escapes")
-            continue
-        if framework:
-            ctx.check("R-ONE-OUTCOME", label, rt.node, outcomes <= 1, f"{outcomes} outcomes on a framework-exception path",
-                      path=runmodel.fmt_log(r.state), construct=f"{Q}._run_prepared_result::framework outcomes={outcomes}")
-            continue
-        if phantom:
-            # consequence of R-SENTINEL-IFF-RECORDED being violated (reported there, once)
-            ctx.note(f"exit state {label} is a consequence of the sentinel being returned without a recorded exception (see R-SENTINEL-IFF-RECORDED)")
-            continue
-        ctx.check("R-ONE-OUTCOME", label, rt.node, outcomes == 1 and started == 1,
-                  f"a run can end with {outcomes} outcome(s) reported",
-                  path=runmodel.fmt_log(r.state), construct=f"{Q}._run_prepared_result::{'return' if kind == 'val' else 'reraise'} outcomes={outcomes}")
-    ctx.check("R-ONE-OUTCOME", f"abstract exit states explored: {len(res)} ({n_exit} distinct event signatures)", rt.node, len(res) >= 20,
-              "the abstract run has implausibly few exit states (model broken?)", examined=len(res), construct=f"{Q}::exit-states")
-    reraise_seen = any(r.kind == "exc" and r.value == RERAISE for r in res)
-    ctx.check("R-RERAISE", "an unhandled exception kind propagates out of the run", rt.node, reraise_seen,
-              "no abstract path re-raises the recorded exception: KeyboardInterrupt/SystemExit would be swallowed", construct=f"{Q}::reraise-exists")
-
-    # ------------------------------------------------------------------ non-Exception exceptions propagate
     ctx.rule("R-INTERRUPT-PROPAGATES", "a non-Exception exception raised by any stage is re-raised out of the run, whatever later stages raise")
-    kres, kint = runmodel.analyse_kinds(ctx, rt, kinds=("base", "bad") if ctx.tier == "quick" else runmodel.KINDS)
-    pairs = {}
-    n_base_exits = 0
-    for r in kres:
-        st_ = r.state
-        framework = r.kind == "exc" and isinstance(r.value, tuple) and r.value and r.value[0] == "framework"
-        if framework or st_.get("ev.phantom", 0):
-            continue
-        base = st_.get("exc.base", None)
-        if base is None:
-            continue
-        n_base_exits += 1
-        propagated = r.kind == "exc" and isinstance(r.value, tuple) and r.value[:2] == ("reraise", "base")
-        last = st_.get("exc.last", ("?", "?"))
-        pairs.setdefault((base, last[1], propagated), r)
-    for (base, last_stage, propagated), r in sorted(pairs.items(), key=repr):
-        ctx.check("R-INTERRUPT-PROPAGATES", f"non-Exception raised in {base}, last recorded exception from {last_stage}: {'propagates' if propagated else 'SWALLOWED'}", rpr_node(ctx), propagated,
-                  f"a KeyboardInterrupt / SystemExit raised in {base} does not propagate out of run() when the exception recorded last comes from {last_stage}: "
-                  "the outcome is selected from that last exception alone, it matches a handler, and the run returns normally",
-                  path=runmodel.fmt_log(r.state), construct=f"{Q}._run_prepared_result::non-Exception from {base} masked by {last_stage}")
-    ctx.check("R-INTERRUPT-PROPAGATES", f"{n_base_exits} abstract exits with a non-Exception recorded examined ({len(kres)} exit states)", rt.node, n_base_exits >= 10,
-              "implausibly few exits (model broken?)", examined=len(kres), construct=f"{Q}::kind-exits")
+    case = cm.case_class(ctx)
+    Q = f"{TESTCASE}:TestCase.run"
+    combos = _combos() if ctx.tier == "thorough" else [c for i, c in enumerate(_combos()) if i % 2 == 0 or "interrupt" in c]
+    for su, te, td, cl in combos:
+        label = _label(su, te, td, cl)
+        d, runs = cm.run_case(ctx, _script(su, te, td, cl))
+        one, bracket, catch, interrupt = set(), set(), set(), set()
+        kinds = [k for k in (su, te, td, cl) if k not in (None, "-")]
+        want_interrupt = "interrupt" in kinds
+        for r in runs:
+            res = [n.split(".", 1)[1] for n in cm.names(r, ("result.",))]
+            ocs = cm.outcomes(r)
+            if res.count("startTest") != 1 or res.count("stopTest") != 1 or res[:1] != ["startTest"] or res[-1:] != ["stopTest"]:
+                bracket.add(f"the result receives {res}: expected startTest first, stopTest last, each exactly once")
+            if len(ocs) != 1:
+                one.add(f"{len(ocs)} outcomes are reported ({ocs}); expected exactly one")
+            elif not kinds and ocs != ["addSuccess"]:
+                one.add(f"nothing raised, yet the outcome is {ocs[0]}")
+            elif kinds and ocs == ["addSuccess"]:
+                one.add("a stage raised, yet the test is reported as a success")
+            if r.kind == "exc" and not (want_interrupt and r.value[:2] == ("exc", "KeyboardInterrupt")):
+                catch.add(f"the exception {r.value!r} of user code escapes run()")
+            if want_interrupt:
+                if not (r.kind == "exc" and r.value[:2] == ("exc", "KeyboardInterrupt")):
+                    interrupt.add(f"a KeyboardInterrupt raised by user code does not propagate out of run() (run() {'returns' if r.kind == 'val' else 'raises ' + repr(r.value)})")
+                if ocs and ocs != ["addError"]:
+                    interrupt.add(f"the interrupted test is reported as {ocs}; expected an error")
+                stages = [n for n in cm.names(r, ("user.",))]
+                must = ["user.setUp"] + (["user.test", "user.tearDown"] if su is None else []) + ["user.cleanup"]
+                if stages != must:
+                    interrupt.add(f"after the interrupt the stages run are {stages}; expected {must} (tearDown and the cleanups still run)")
+        if not runs:
+            bracket.add("no path of run() was followed to its end")
+        ctx.check("R-BRACKET", f"[{label}] startTest first, stopTest last, once each", case.node, not bracket, "; ".join(sorted(bracket)), examined=len(runs), construct=f"{Q}::bracket {label}")
+        ctx.check("R-ONE-OUTCOME", f"[{label}] exactly one outcome, a success only if nothing raised", case.node, not one, "; ".join(sorted(one)), examined=len(runs), construct=f"{Q}::outcome {label}")
+        ctx.check("R-CATCH-ALL", f"[{label}] no exception of user code escapes run() (other than a non-Exception one, re-raised after stopTest)", case.node, not catch,
+                  "; ".join(sorted(catch)), examined=len(runs), construct=f"{Q}::escape {label}")
+        if want_interrupt:
+            ctx.check("R-INTERRUPT-PROPAGATES", f"[{label}] the KeyboardInterrupt is reported as an error, the later stages still run, and it propagates out of run()", case.node, not interrupt,
+                      "; ".join(sorted(interrupt)), examined=len(runs), construct=f"{Q}::interrupt {label}")
+    ctx.floor("R-ONE-OUTCOME", 12, "stage outcome combinations")
 
-    # ------------------------------------------------------------------ sentinel iff recorded
-    gue = own_method(ctx, RUNTEST, "RunTest", "_got_user_exception")
-    res2, interp2 = runmodel.analyse_run(ctx, rt, method="_got_user_exception", argvals={}, state=runmodel.initial_state(), track_return_sites=True)
-    ret_stmts = {n.lineno: n for n in ast.walk(gue) if isinstance(n, ast.Return)}
+    # any exception that is not an Exception (SystemExit as well as KeyboardInterrupt) wins over what later stages raise
+    for te, td in (("exit", "error"), ("exit", None), ("interrupt", "fail")):
+        d, runs = cm.run_case(ctx, _script(None, te, td, None))
+        problems = set()
+        want = cm.KINDS[te][0]
+        for r in runs:
+            if not (r.kind == "exc" and r.value[:2] == ("exc", want)):
+                problems.add(f"the test raises {want}, tearDown {'raises an error' if td else 'returns'}: run() {'returns' if r.kind == 'val' else 'raises ' + repr(r.value)} instead of re-raising the {want}")
+            if cm.outcomes(r) != ["addError"]:
+                problems.add(f"the outcomes reported are {cm.outcomes(r)}; expected one error")
+        ctx.check("R-INTERRUPT-PROPAGATES", f"[test raises {want}, tearDown {td or 'ok'}] the non-Exception exception is re-raised out of run()", case.node, bool(runs) and not problems,
+                  "; ".join(sorted(problems)) or "no path", examined=len(runs), construct=f"{Q}::non-exception {te} {td}")
+    # a test (method) marked as skipped with unittest.skip: one skip outcome, nothing runs
+    d, runs = cm.run_case(ctx, _script(None, None, None, None), extra_attrs={"m_test.__unittest_skip__": TRUE, "m_test.__unittest_skip_why__": ("const", "not today")})
+    problems = set()
+    for r in runs:
+        if cm.outcomes(r) != ["addSkip"] or cm.names(r, ("user.",)) or r.kind != "val":
+            problems.add(f"a test marked with unittest.skip gives the outcomes {cm.outcomes(r)} and runs {cm.names(r, ('user.',))}; expected exactly one skip and no user code")
+        for n, pos, kw in cm.events(r, ("result.",)):
+            if n == "result.addSkip" and ("const", "not today") not in list(pos) + list(kw.values()) and "not today" not in repr(kw):
+                problems.add("the skip reason given to unittest.skip does not reach the result")
+    ctx.check("R-ONE-OUTCOME", "a test marked with unittest.skip is reported as exactly one skip; no stage runs", case.node, bool(runs) and not problems, "; ".join(sorted(problems)) or "no path",
+              examined=len(runs), construct=f"{Q}::unittest-skip")
+    # an old-style result (no addSkip): the run still reports one outcome through the adapter
+    d, runs = cm.run_case(ctx, _script(None, "skip", None, None), lacks={("result", "addSkip")})
+    problems = set()
+    for r in runs:
+        res = [n.split(".", 1)[1] for n in cm.names(r, ("result.",))]
+        if r.kind != "val" or [x for x in res if x.startswith("add")] != ["addSuccess"]:
+            problems.add(f"with a result that has no addSkip a skipped test gives {res} and run() {'returns' if r.kind == 'val' else 'raises ' + repr(r.value)}; expected the documented fallback (addSuccess), not an error")
+    ctx.check("R-RUN-BRACKET", "results are adapted (ExtendedToOriginalDecorator): outcomes a plain unittest result lacks degrade instead of failing", case.node, bool(runs) and not problems,
+              "; ".join(sorted(problems)) or "no path", examined=len(runs), construct=f"{RUNTEST}:RunTest._run_one::adapted")
 
-    def site_text(lineno):
-        n = ret_stmts.get(lineno)
-        if n is None:
-            return "implicit return"
-        p = getattr(n, "_parent", None)
-        guards = []
-        while p is not None and p is not gue:
-            if isinstance(p, ast.If):
-                guards.append(norm(p.test))
-            p = getattr(p, "_parent", None)
-        return (" / ".join(reversed(guards)) + ": " if guards else "") + norm(n)
+    # a MultipleExceptions: every constituent is recorded, one outcome; an empty one (known finding) records nothing
+    ex1, ex2 = cm.raised("fail", "test-1"), cm.raised("error", "test-2")
+    d, runs = cm.run_case(ctx, {"test": [("raise", cm.multi("test", ex1, ex2))]})
+    problems = set()
+    for r in runs:
+        if len(cm.outcomes(r)) != 1 or cm.outcomes(r) == ["addSuccess"] or r.kind != "val":
+            problems.add(f"a MultipleExceptions of two exceptions gives the outcomes {cm.outcomes(r)} and run() {'returns' if r.kind == 'val' else 'raises ' + repr(r.value)}")
+    ctx.check("R-ONE-OUTCOME", "a MultipleExceptions of two exceptions yields one (unsuccessful) outcome", case.node, bool(runs) and not problems, "; ".join(sorted(problems)) or "no path", examined=len(runs),
+              construct=f"{Q}::multiple-exceptions")
+    d, runs = cm.run_case(ctx, {"test": [("raise", cm.multi("test"))]})
+    bad = [r for r in runs if len(cm.outcomes(r)) != 1 or cm.outcomes(r) == ["addSuccess"]]
+    ctx.check("R-SENTINEL-IFF-RECORDED", "a MultipleExceptions with no constituents still makes the test unsuccessful", case.node, bool(runs) and not bad,
+              f"the test method raises MultipleExceptions() (no constituents): the outcomes reported are {[cm.outcomes(r) for r in bad]} -- nothing is recorded for the exception, "
+              "so the test reports no outcome at all (startTest, stopTest only)", examined=len(runs),
+              construct=f"{RUNTEST}:RunTest._got_user_exception::sentinel returned, recorded=Empty, onException not called")
 
-    seen = set()
-    for r in res2:
-        rec = r.state.get("self._exceptions")
-        if r.kind != "val":
-            continue
-        if r.value == SENT:
-            ok = rec == NONEMPTY
-            what = "returns the sentinel"
-        else:
-            ok = rec == EMPTY
-            what = f"returns {r.value}"
-        site = site_text(r.state.get("ev.retsite", 0))
-        onexc = bool(r.state.get("ev.onexc", 0))
-        sig = (r.value == SENT, rec, onexc)
-        if sig in seen:
-            continue
-        seen.add(sig)
-        # keyed by what happened on the path, not by where the return statement sits
-        construct = (f"{Q}._got_user_exception::{'sentinel' if r.value == SENT else 'no sentinel'} returned, recorded={rec}, "
-                     f"onException {'called' if onexc else 'not called'}")
-        ctx.check("R-SENTINEL-IFF-RECORDED", f"_got_user_exception: `{site}` {what} with recorded list {rec}", ret_stmts.get(r.state.get("ev.retsite", 0), gue), ok,
-                  "the sentinel is returned although no exception was recorded (e.g. an empty MultipleExceptions): the stage counts as failed "
-                  "but nothing selects an outcome, so startTest/stopTest are delivered with no outcome in between"
-                  if r.value == SENT else "a non-sentinel value is returned although an exception was recorded",
-                  path=runmodel.fmt_log(r.state), construct=construct)
-    ctx.floor("R-SENTINEL-IFF-RECORDED", 1)
-    # _run_user returns the callee's value or the recorder's result
-    ru = own_method(ctx, RUNTEST, "RunTest", "_run_user")
+    # the result breaks while the outcome is reported: the bracket is still closed, and the error is not swallowed
+    for broken in ("result.addFailure", "result.addSuccess"):
+        te = "fail" if broken.endswith("addFailure") else None
+        d, runs = cm.run_case(ctx, _script(None, te, None, None), result_raises=(broken,))
+        problems = set()
+        for r in runs:
+            res = [n.split(".", 1)[1] for n in cm.names(r, ("result.",))]
+            if res[-1:] != ["stopTest"] or res.count("stopTest") != 1:
+                problems.add(f"when {broken} raises, the result receives {res}: stopTest must still be delivered, once")
+            if r.kind != "exc" or r.value[:2] != ("exc", "ResultBroken"):
+                problems.add(f"the error raised by {broken} is swallowed (run() {'returns' if r.kind == 'val' else 'raises ' + repr(r.value)})")
+            if len(cm.outcomes(r)) > 1:
+                problems.add(f"a second outcome is attempted after {broken} raised ({cm.outcomes(r)})")
+        ctx.check("R-RERAISE", f"an error raised by {broken} propagates, after stopTest, without a second outcome", case.node, bool(runs) and not problems, "; ".join(sorted(problems)) or "no path",
+                  examined=len(runs), construct=f"{Q}::broken {broken}")
 
-    # ------------------------------------------------------------------ catch-all (CFG + handler typing)
-    def check_catch_all(cls_mod, cls_name, meth):
-        f = own_method(ctx, cls_mod, cls_name, meth)
-        fn_param = f.args.args[1].arg
-        sites = [c for c in walk_shallow(f, include_self=False) if isinstance(c, ast.Call) and isinstance(c.func, ast.Name) and c.func.id == fn_param]
-        for c in sites:
-            tries = []
-            p = c
-            while p is not None and p is not f:
-                par = getattr(p, "_parent", None)
-                if isinstance(par, ast.Try) and any(p is s or any(p is w for w in ast.walk(s)) for s in par.body):
-                    tries.append(par)
-                p = par
-            ok = False
-            msg = f"{norm(c)} is not inside a try"
-            for t in tries:
-                for h in t.handlers:
-                    if handler_is_catch_all(h):
-                        reaches = any(isinstance(x, ast.Call) and dotted(x.func) == "self._got_user_exception" for x in walk_shallow(h))
-                        ok = reaches
-                        msg = "the catch-all handler does not hand the exception to _got_user_exception"
-                        break
-                    else:
-                        msg = f"user code is called under `except {', '.join(handler_names(h))}`: KeyboardInterrupt/SystemExit would abort the run before tearDown and cleanups"
-                if ok:
-                    break
-            ctx.check("R-CATCH-ALL", f"{cls_name}.{meth}: {norm(c)[:40]}", c, ok, msg, construct=f"{cls_mod}:{cls_name}.{meth}::user-call")
-
-    check_catch_all(RUNTEST, "RunTest", "_run_user")
-    ctx.floor("R-CATCH-ALL", 1)
-
-    rpr = own_method(ctx, RUNTEST, "RunTest", "_run_prepared_result")
-    # ------------------------------------------------------------------ re-raise arm / one report per exception
-    # decided on the abstract run with a symbolic three-entry handler table (see runmodel.DispatchDomain):
-    # whatever shape the dispatch has, every relation between the exception and the table ends with exactly
-    # one report, and with no matching entry the report goes to last_resort and the exception is re-raised
-    for m, x, first, exits in runmodel.dispatch_semantics(ctx, rt):
-        rel = "".join("1" if b_ else "0" for b_ in m)
-        got = [(a_, w_, k_) for a_, w_, k_, _ in exits]
-        bad = next((r_ for a_, w_, k_, r_ in exits if len(a_) != 1), None)
-        if first is None:
-            ok = got == [(("last_resort",), (True,), "reraise")]
-            ctx.check("R-RERAISE", "no entry of the handler table matches: last_resort(case, result, e), then e is re-raised", rpr, ok,
-                      "an exception no handler claims must be reported through last_resort and re-raised (inside the bracket); the dispatch does: " +
-                      "; ".join(f"invokes {list(a_)} then {k_}" for a_, w_, k_ in got),
-                      path=runmodel.fmt_log(exits[0][3].state) if exits else None, construct=f"{Q}._run_prepared_result::no-match-arm")
-        else:
-            ok = bool(got) and all(len(a_) == 1 and k_ == "return" for a_, w_, k_ in got)
-            ctx.check("R-RERAISE", f"isinstance(e, C0..C2)={rel}" + (f", type(e) is C{x}" if x is not None else "") + ": exactly one handler reports and the run returns", rpr, ok,
-                      "a matching exception is not reported by exactly one handler: " + "; ".join(f"invokes {list(a_)} then {k_}" for a_, w_, k_ in got),
-                      path=runmodel.fmt_log(bad.state) if bad is not None else None, construct=f"{Q}._run_prepared_result::one-report m={rel} exact={x}")
-    ctx.floor("R-RERAISE", 20, "table relations")
-
-    # ------------------------------------------------------------------ run-level bracket / adaptation / reset
-    run_f = own_method(ctx, RUNTEST, "RunTest", "run")
-    bad = []
-    n_states = 0
-    for rv in (NONE, NOTNONE):
-        st = State([("ev.startRun", 0), ("ev.stopRun", 0)])
-        dom = runmodel.RunDomain(classes, rt)
-        # _run_one is opaque here: it returns or raises
-        orig_call = dom.call
-
-        def call(interp_, c, s, fr, orig_call=orig_call):
-            if dotted(c.func) == "self._run_one":
-                from ..absint import exc, val
-                return [val(NOTNONE, s), exc(("framework", "run aborted"), s), exc(RERAISE, s)]
-            return orig_call(interp_, c, s, fr)
-
-        dom.call = call
-        from ..absint import Interp
-        it = Interp(dom, max_depth=4)
-        out = it.analyze(run_f, {"result": rv}, st, receiver=rt, name="run")
-        ctx.stats["states"] += it.steps
-        for r in out:
-            n_states += 1
-            a, b = r.state.get("ev.startRun", 0), r.state.get("ev.stopRun", 0)
-            want = 1 if rv == NONE else 0
-            started_ok = a == want or (r.kind == "exc" and a <= want)
-            if not started_ok or b != a and not (r.kind == "exc" and "startTestRun" in repr(r.value)):
-                if not (r.kind == "exc" and isinstance(r.value, tuple) and "TestRun raised" in repr(r.value) and b <= a):
-                    bad.append((rv, r))
-    ctx.check("R-RUN-BRACKET", "run(): startTestRun/stopTestRun paired iff the result was created here", run_f, not bad,
-              f"with result {'None' if bad and bad[0][0] == NONE else 'supplied'}: startTestRun x{bad[0][1].state.get('ev.startRun', 0) if bad else 0}, stopTestRun x{bad[0][1].state.get('ev.stopRun', 0) if bad else 0}" if bad else "",
-              examined=n_states, path=runmodel.fmt_log(bad[0][1].state) if bad else None, construct=f"{Q}.run::run-bracket")
-    r1 = own_method(ctx, RUNTEST, "RunTest", "_run_one")
-    ok = any(isinstance(s, ast.Return) and isinstance(s.value, ast.Call) and dotted(s.value.func) == "self._run_prepared_result"
-             and s.value.args and isinstance(s.value.args[0], ast.Call) and dotted(s.value.args[0].func) == "ExtendedToOriginalDecorator"
-             and dotted(s.value.args[0].args[0]) == r1.args.args[1].arg for s in walk_shallow(r1, include_self=False))
-    ctx.check("R-RUN-BRACKET", "_run_one adapts the result with ExtendedToOriginalDecorator", r1, ok,
-              "results are no longer wrapped in ExtendedToOriginalDecorator before the run (old-style results would reject details=)", construct=f"{Q}._run_one::adapt")
-    ok = any(isinstance(s, ast.Return) and isinstance(s.value, ast.Call) and dotted(s.value.func) == "self._run_one" for s in ast.walk(run_f))
-    ctx.check("R-RUN-BRACKET", "run() goes through _run_one", run_f, ok, "run() bypasses _run_one", construct=f"{Q}.run::via-run-one")
-    # the Twisted runners inherit the bracket code unchanged
-    for cname in ("SynchronousDeferredRunTest", "AsynchronousDeferredRunTest", "AsynchronousDeferredRunTestForBrokenTwisted"):
-        try:
-            c = classes.get(TWRUNTEST, cname)
-        except AnalysisError:
-            continue
-        for m in ("run", "_run_one", "_run_prepared_result"):
-            owner, f = classes.resolve_method(c, m)
-            ctx.check("R-BRACKET", f"{cname}.{m} resolves to RunTest.{m}", c.node, owner is rt,
-                      f"{cname} overrides {m} (defined in {owner.name if owner else None}); the bracket analysis does not cover it",
-                      construct=f"{TWRUNTEST}:{cname}::inherits {m}")
-    tc_run = own_method(ctx, TESTCASE, "TestCase", "run")
-    tcfg = cfg_of(ctx, tc_run)
-    tlive = live_nodes(tcfg)
-    resets = nodes_calling(tcfg, lambda c: dotted(c.func) == "self._reset", tlive)
-    builds = nodes_calling(tcfg, lambda c: (dotted(c.func) or "").endswith("__RunTest"), tlive)
-    ok = bool(resets) and bool(builds) and all(tcfg.dominated_by(b, set(resets)) for b in builds)
-    ctx.check("R-RUN-BRACKET", "TestCase.run resets before building a fresh runner", tc_run, ok,
-              "the RunTest can be built before _reset(): state of a previous run leaks into this one", construct=f"{TESTCASE}:TestCase.run::reset-first")
-    hands = [c for b in builds for c in node_calls(tcfg.nodes[b]) if (dotted(c.func) or "").endswith("__RunTest")]
-    ok = bool(hands) and all(len(c.args) >= 2 and dotted(c.args[0]) == "self" and dotted(c.args[1]) == "self.exception_handlers" for c in hands) and any(
-        any(k.arg == "last_resort" and dotted(k.value) == "self._report_error" for k in c.keywords) for c in hands)
-    ctx.check("R-RUN-BRACKET", "runner gets the handler table and last_resort=_report_error", tc_run, ok,
-              "the runner is not built with (self, self.exception_handlers, last_resort=self._report_error)", construct=f"{TESTCASE}:TestCase.run::handlers")
-    rets = [n for n in tcfg.nodes if n.id in tlive and n.kind == "return"]
-    ok = bool(rets) and all(isinstance(r.ast.value, ast.Call) and isinstance(r.ast.value.func, ast.Attribute) and r.ast.value.func.attr == "run" for r in rets)
-    ctx.check("R-RUN-BRACKET", "TestCase.run returns the runner's result", tc_run, ok, "TestCase.run does not return run_test.run(result)", construct=f"{TESTCASE}:TestCase.run::returns")
-    ctx.assume("user code cannot return the runner's private sentinel object (it is created per RunTest and never handed out)")
-    ctx.assume("result methods and addOnException handlers that raise abort the run (documented); only the bracket is required on those paths")
+    # run() without a result: the default result is started and stopped around the test
+    script = dict(_script(None, None, None, None))
+    script["defaultTestResult"] = [("return", ("wobj", "default_result"))]
+    d, runs = cm.new_case(ctx, script)
+    runs = [type(r)(r.kind, r.value, r.state.set("self.defaultTestResult", cm.user("defaultTestResult"))) for r in runs]
+    runs = d.call(runs, "run", [])
+    d.done()
+    problems = set()
+    for r in runs:
+        got = [n.split(".", 1)[1] for n in cm.names(r, ("default_result.",))]
+        if got[:2] != ["startTestRun", "startTest"] or got[-2:] != ["stopTest", "stopTestRun"] or got.count("startTestRun") != 1 or got.count("stopTestRun") != 1:
+            problems.add(f"a result created by run() receives {got}; expected startTestRun, the test's bracket, stopTestRun")
+    script_i = dict(_script(None, "interrupt", None, None))
+    script_i["defaultTestResult"] = [("return", ("wobj", "default_result"))]
+    d2, runs2 = cm.new_case(ctx, script_i)
+    runs2 = d2.call([type(r)(r.kind, r.value, r.state.set("self.defaultTestResult", cm.user("defaultTestResult"))) for r in runs2], "run", [])
+    d2.done()
+    for r in runs2:
+        got = [n.split(".", 1)[1] for n in cm.names(r, ("default_result.",))]
+        if got[-1:] != ["stopTestRun"]:
+            problems.add(f"when the test is interrupted, a result created by run() receives {got}: stopTestRun is not delivered")
+    ctx.check("R-RUN-BRACKET", "run() without a result creates the default result and brackets the test with startTestRun / stopTestRun", case.node, bool(runs) and not problems,
+              "; ".join(sorted(problems)) or "no path", examined=len(runs), construct=f"{RUNTEST}:RunTest.run::run-bracket")
+    d, runs = cm.run_case(ctx, _script(None, None, None, None))
+    got = [[n.split(".", 1)[1] for n in cm.names(r, ("result.",))] for r in runs]
+    ok = bool(runs) and all("startTestRun" not in g and "stopTestRun" not in g for g in got)
+    ctx.check("R-RUN-BRACKET", "a result handed to run() is not started or stopped by it", case.node, ok, f"the caller's result receives {got}", examined=len(runs), construct=f"{RUNTEST}:RunTest.run::caller-result")
+    # running the same case twice gives the same history: every run starts from a reset case with a fresh runner
+    d, runs = cm.run_case(ctx, _script(None, "fail", None, None), times=2)
+    problems = set()
+    for r in runs:
+        seq = cm.names(r)
+        half = len(seq) // 2
+        if len(seq) % 2 or seq[:half] != seq[half:]:
+            problems.add(f"the second run of the same test differs from the first: {seq[:half]} then {seq[half:]}")
+    ctx.check("R-RUN-BRACKET", "running the same TestCase twice repeats the same calls and outcome", case.node, bool(runs) and not problems, "; ".join(sorted(problems)) or "no path", examined=len(runs),
+              construct=f"{TESTCASE}:TestCase.run::rerun")
